@@ -151,7 +151,11 @@ Judge(step, res, before, after) ==
         dstBad == dst # 0 /\ IsMesh(res) /\ after[dst] # res
         \* an ill-formed result cannot be dereferenced: it is rejected without evaluating the reference comparison
         wf == IsMesh(res) => WellFormed(res)
+        \* every mesh that was well formed before the step still is (a derivation must not corrupt its operands)
+        poolBad == {s \in DOMAIN before : IsMesh(before[s]) /\ WellFormed(before[s]) /\ s # dst
+                                            /\ IsMesh(after[s]) /\ ~WellFormed(after[s])}
     IN (IF frameBad # {} THEN {"C01.Frame"} ELSE {})
+       \cup (IF poolBad # {} THEN {"C02.PoolWellFormed"} ELSE {})
        \cup (IF dstBad THEN {"Harness.Dst"} ELSE {})
        \cup (IF adm /\ ~wf THEN {"C02.WellFormed"} ELSE {})
        \cup (IF pre /\ ~wf THEN {"C03.Result"} ELSE {})
